@@ -442,7 +442,7 @@ def handle (toks : List String) : String :=
   | ["dqmz", ht, labelled, vt, nl, bytes] =>
     errStr (dqmLoad Gen.dqmLoadsWholeFile (oracleParse (unhex ht) (labelled = "1", ())) (oracleParse (unhex vt) (List.range nl.toNat!))
         (fun r _ => some r.entries) (fun _ => nl.toNat!) (unhex bytes))
-      fun r => s!"members={r.2.1} labels=" ++ showLabels r.2.2
+      fun r => s!"members={r.2.1} labels=" ++ (match r.2.2 with | none => "none" | some l => toString l.length)
   | ["hdrtextcqm", counts] => charsToHex (dumpsDict (cqmCountsDict (parseCounts counts)))
   | ["hdrtextdqm", counts, flag] =>
     match (counts.splitOn ",").map String.toNat! with
